@@ -73,7 +73,7 @@ def focus_points(run, limit):
 def run(run):
     rng = run.rng
     run.do_ties()
-    quick = run.tier == "quick"
+    quick = run.quick
     # points: uniform + next to the seams between quintants / faces / at dodecahedron vertices (rings of coarse cells)
     coarse = [spec.encode(0, f, ()) for f in range(12)] + [spec.encode(1, T, ()) for T in range(60)]
     cr = core.impl_only(run, [f"cell_to_boundary {c} 1 4" for c in coarse])
